@@ -180,7 +180,7 @@ def run_load(shard, tier, acc):
 
 
 def session_specs(tier):
-    t0, t1 = D.TERMINALS
+    t0, t1 = D.TERMINALS[0], D.TERMINALS[1]
     cands = [
         (t0, [('A1D1', .5), ('M', .3), ('D2', .2)]),
         (t1, [('A2A1', .6), ('D1D1', .4)]),
